@@ -4,7 +4,7 @@
    outside [0,lines) x [0,columns). SCm: a remembered DECCOLM width is >= 1. *)
 From Coq Require Import NArith List Bool.
 From MT Require Import Lib Types Tables Screen Spec Stmt Obs.
-From MT.Proofs Require Import WF Aeq RefineReset RefineMisc SpecAll RefineModes RefineAll RunAll P09.
+From MT.Proofs Require Import WF Aeq RefineReset RefineMisc SpecAll RefineModes RefineAll RunAll P09 OracleSound.
 From MT Require TablesOk_C08.
 Import ListNotations.
 Open Scope N_scope.
@@ -51,6 +51,11 @@ Theorem C09_SGR_only_produces_documented_colours : forall dc a ps, cell_colours_
   cell_colours_ok (sgr_spec dc a ps) = true.
 Proof. intros dc a ps Hd Ha. apply (P_sgr_spec dc Hd (length ps) ps a (le_n _) Ha). Qed.
 
+(* the full boolean predicate evaluated on every implementation snapshot (geometric clauses + nothing stored outside the grid +
+   colours) implies the invariant of the theorems: a snapshot that passes it is a state from which every theorem above applies *)
+Theorem C09_oracle_implies_invariant : forall s, wfb s = true -> WF s.
+Proof. exact wfb_sound. Qed.
+
 Example C09_nonvacuous : WF (init 80 24) /\ SCm (init 80 24).
 Proof. split; [apply WF_init; discriminate|exact I]. Qed.
 
@@ -60,3 +65,4 @@ Print Assumptions C09_every_reachable_state.
 Print Assumptions C09_display_length.
 Print Assumptions C09_colours_always_documented.
 Print Assumptions C09_SGR_only_produces_documented_colours.
+Print Assumptions C09_oracle_implies_invariant.
